@@ -155,7 +155,7 @@ def decode_pass(run, want, **override):
     exe = core.build_rs("c01")
     base = dict(shapes=shapes, seed=run.seed, k_random=t["k_random"], field_rand=t["field_rand"],
                 field_lite=t["field_lite"], windows=t["windows"], win_df=t["win_df"], wl_every=t["wl_every"],
-                hang_ms=HANG_MS, ctx=("c01" in want), ctx_every=t.get("ctx_every", 16), emit01=("c01" in want), emit07=("c07" in want), emit08=("c08" in want),
+                hang_ms=HANG_MS, ctx=("c01" in want), pairs=("c07" in want), ctx_every=t.get("ctx_every", 16), emit01=("c01" in want), emit07=("c07" in want), emit08=("c08" in want),
                 sample_every=20011 if run.tier == "quick" else 400009, count_keys=sorted(t.get("count_keys", [])))
     cfg0 = _write_cfg(run, "cfg_count", base, out=run.work)
     p = subprocess.run([exe, "count", cfg0], stdout=subprocess.PIPE, text=True, timeout=1200)
